@@ -98,7 +98,22 @@ pub fn with_key(
     seed: &[u8; 32],
     f: &mut dyn FnMut(&mut dyn KeyH, PublicKey) -> Result<(), Fail>,
 ) -> Result<After, Fail> {
+    // keygen takes any caller buffer (it writes the key material and the period itself): two thirds of the keys are
+    // generated into a buffer that already holds other bytes (a pattern, or what looks like an old key with a high period)
     let mut buf = vec![0u8; key_buffer_len(depth)];
+    match seed[31] % 3 {
+        1 => buf.fill(0xa5),
+        2 => {
+            let mut x = u64::from_le_bytes(seed[..8].try_into().unwrap()) | 1;
+            for b in buf.iter_mut() {
+                x ^= x << 13;
+                x ^= x >> 7;
+                x ^= x << 17;
+                *b = x as u8;
+            }
+        }
+        _ => {}
+    }
     let mut sd = *seed;
     macro_rules! go {
         ($key:ident) => {{
